@@ -382,6 +382,149 @@ func TestC13Ed25519Internal(t *testing.T) {
 			}
 		})
 	})
+	t.Run("history", func(t *testing.T) {
+		// state machine over a pool of pointR1 objects: every operation and every observer (ToBytes normalises
+		// in place, isEqual, fromR1) in any order; each object keeps representing (model exponent)·G.
+		sub := "history/ed25519-internal"
+		vlib.Check(t, vlib.N(120, 480), func(t *rapid.T) {
+			const N = 4
+			pool := make([]pointR1, N)
+			exps := make([]*big.Int, N)
+			observed := make([]bool, N)
+			var trace []string
+			for i := range pool {
+				a, _ := c13Exp(t, "a")
+				pool[i], exps[i] = *c13Mk(a), a
+				trace = append(trace, fmt.Sprintf("o%d := %s·G", i, a.Text(16)))
+			}
+			last := "init"
+			failed := false
+			after, steps := 0, 0
+			pick := func(t *rapid.T) (int, int) {
+				return rapid.IntRange(0, N-1).Draw(t, "i"), rapid.IntRange(0, N-1).Draw(t, "j")
+			}
+			scalar := func(t *rapid.T, label string) *big.Int {
+				if rapid.Bool().Draw(t, label+".small") {
+					return big.NewInt(int64(rapid.IntRange(0, 20).Draw(t, label)))
+				}
+				k, _ := vlib.ScalarNear(t, r, 256, label)
+				return k
+			}
+			step := func(name string, i, j int, e *big.Int, desc string) {
+				if observed[i] || observed[j] {
+					after++
+				}
+				exps[i] = new(big.Int).Mod(e, r)
+				observed[i] = false
+				last = name
+				steps++
+				trace = append(trace, desc)
+				vlib.Class(sub, name)
+			}
+			actions := map[string]func(*rapid.T){
+				"": func(t *rapid.T) {
+					if failed {
+						return
+					}
+					for i := range pool {
+						if got, want := c13Enc(&pool[i]), c13Want(exps[i]); got != want {
+							failed = true
+							if len(trace) > 12 {
+								trace = append([]string{"…"}, trace[len(trace)-12:]...)
+							}
+							vlib.Report(t, "C13/ed25519-internal.history/wrong-after-"+last, fmt.Sprintf("object o%d: got %s want %s·G = %s; history: %v", i, got, exps[i].Text(16), want, trace))
+							return
+						}
+					}
+				},
+				"assign": func(t *rapid.T) {
+					i, _ := pick(t)
+					a, _ := c13Exp(t, "a")
+					pool[i], exps[i], observed[i] = *c13Mk(a), a, false
+					last = "assign"
+					trace = append(trace, fmt.Sprintf("o%d := %s·G", i, a.Text(16)))
+				},
+				"double": func(t *rapid.T) {
+					i, _ := pick(t)
+					pool[i].double()
+					step("double", i, i, new(big.Int).Lsh(exps[i], 1), fmt.Sprintf("o%d.double()", i))
+				},
+				"neg": func(t *rapid.T) {
+					i, _ := pick(t)
+					pool[i].neg()
+					step("neg", i, i, new(big.Int).Neg(exps[i]), fmt.Sprintf("o%d.neg()", i))
+				},
+				"add": func(t *rapid.T) {
+					i, j := pick(t)
+					var R2 pointR2
+					R2.fromR1(&pool[j])
+					pool[i].add(&R2)
+					step("add", i, j, new(big.Int).Add(exps[i], exps[j]), fmt.Sprintf("o%d.add(fromR1(o%d))", i, j))
+				},
+				"fixedMult": func(t *rapid.T) {
+					i, _ := pick(t)
+					k := scalar(t, "k")
+					pool[i].fixedMult(vlib.LE(k, paramB))
+					step("fixedMult", i, i, k, fmt.Sprintf("o%d.fixedMult(%s)", i, k.Text(16)))
+				},
+				"doubleMult": func(t *rapid.T) {
+					i, j := pick(t)
+					m, n := scalar(t, "m"), scalar(t, "n")
+					e := new(big.Int).Mul(n, exps[j])
+					e.Add(e, m)
+					if i == j {
+						pool[i].doubleMult(&pool[i], vlib.LE(m, paramB), vlib.LE(n, paramB))
+					} else {
+						Qc := pool[j] // doubleMult may overwrite its point argument; the copy keeps the object's internal form
+						pool[i].doubleMult(&Qc, vlib.LE(m, paramB), vlib.LE(n, paramB))
+					}
+					step("doubleMult", i, j, e, fmt.Sprintf("o%d.doubleMult(o%d, %s, %s)", i, j, m.Text(16), n.Text(16)))
+				},
+				"observe:ToBytes": func(t *rapid.T) {
+					if failed {
+						return
+					}
+					i, _ := pick(t)
+					enc := make([]byte, paramB)
+					_ = pool[i].ToBytes(enc)
+					observed[i] = true
+					last = "observe:ToBytes"
+					steps++
+					trace = append(trace, fmt.Sprintf("o%d.ToBytes()", i))
+					vlib.Class(sub, last)
+					if want := curves.EdEncode(curves.Ed25519, curves.Ed25519.MulG(exps[i]), 32); fmt.Sprintf("%x", enc) != fmt.Sprintf("%x", want) {
+						failed = true
+						vlib.Report(t, "C13/ed25519-internal.ToBytes/wrong-in-history", fmt.Sprintf("%x vs %x; history: %v", enc, want, trace))
+					}
+				},
+				"observe:isEqual": func(t *rapid.T) {
+					if failed {
+						return
+					}
+					i, j := pick(t)
+					got := pool[i].isEqual(&pool[j])
+					got2 := pool[i].isEqual(c13Mk(exps[i]))
+					observed[i] = true
+					last = "observe:isEqual"
+					steps++
+					trace = append(trace, fmt.Sprintf("o%d.isEqual(o%d)", i, j))
+					vlib.Class(sub, last)
+					if got != (exps[i].Cmp(exps[j]) == 0) || !got2 {
+						failed = true
+						vlib.Report(t, "C13/ed25519-internal.isEqual/wrong-in-history", fmt.Sprintf("o%d vs o%d: %v, vs fresh copy of its value: %v; history: %v", i, j, got, got2, trace))
+					}
+				},
+			}
+			t.Repeat(actions)
+			vlib.Eval(sub)
+			vlib.EvalN(sub+"/steps", int64(steps))
+			if after > 0 && !failed {
+				vlib.Class(sub, "operand-after-observer")
+				vlib.NonTrivial(sub, "operand-after-observer", []byte(fmt.Sprint(trace)))
+				vlib.Sample(sub, "history", fmt.Sprint(trace))
+			}
+		})
+	})
 	t.Run("low-order-operands", func(t *testing.T) {
 		// the curve points with x = 0 or y = 0 ((0,1), (0,−1), (±√−1, 0)) added to multiples of G:
 		// the formulas are complete, verification feeds such public keys to doubleMult
